@@ -644,6 +644,16 @@ fn main() {
     if let Err(e) = self_checks(ctx.seed) { println!("HARNESS-ERROR C06 self-check failed: {e}"); std::process::exit(3); }
     let mut rep = Report::new();
     let n = ctx.tier.pick(60_000, 400_000);
+    // tiny alphabet: long query sessions on ONE remapper whose (owner, name, descriptor) triples share concatenations / prefixes
+    run_cases(&ctx, &replay, &mut rep, "tiny", n / 6, |rng, rep, _case| {
+        let sc = scenario::gen_tiny_scenario(rng);
+        rep.eval(); rep.count("shape.tiny_alphabet");
+        let before = (rep.get("q.member.nearest_declaring_super_type"), rep.get("q.member.identity_fallback"));
+        if let Some(st) = run_scenario(rng, rep, &sc, 360, Canary::None, None) {
+            if st.nontrivial { rep.nontrivial(st.fingerprint); }
+            if rep.get("q.member.nearest_declaring_super_type") > before.0 && rep.get("q.member.identity_fallback") > before.1 { rep.count("tiny.session_with_misses_and_inherited_answers_on_one_remapper"); }
+        }
+    });
     run_cases(&ctx, &replay, &mut rep, "sets", n, |rng, rep, _case| one_case(rng, rep, 200, false, None));
 
     let mut meta = Meta::new("exploration",
@@ -656,6 +666,7 @@ fn main() {
         .assume("'nearest declaring super type in declaration order' is read as depth-first pre-order (DESIGN 9a); cases where a breadth-first reading would differ are counted (q.member.depth_first_differs_from_breadth_first)");
     if replay.is_none() {
         meta.oblige("pairs with from != first namespace", rep.get("pair.from_other_namespace") > 0);
+        meta.oblige("at least 100 tiny-alphabet sessions in which one remapper answered both queries that miss everywhere and queries answered through a super type", rep.get("tiny.session_with_misses_and_inherited_answers_on_one_remapper") >= 100);
         meta.oblige("member answered by the owner's own table", rep.get("q.member.owner_declares") > 0);
         meta.oblige("member answered through a super type (all classes on the way have entries)", rep.get("q.member.nearest_declaring_super_type") > 0);
         meta.oblige("member whose walk passes an owner/intermediate WITHOUT mapping entry (separately counted category)", rep.get("q.member.walk_through_class_without_entry") > 0);
